@@ -189,6 +189,52 @@ PathHolds(cfg, s) ==
                 \/ x.cut /\ ~x.nostart /\ v = SubSeq(x.visits, 1, Len(x.visits) - 1)
 
 (* ---------------------------------------------------------------------- *)
+(* the equivalent FLATTENED state machine of a hierarchy of flows (C10):    *)
+(* a state is (stack of enclosing flows, leaf); one step = the leaf returns *)
+(* an action, flows that end present their last action one level up.       *)
+(* An independent, non-recursive-descent formulation of what a nested      *)
+(* arrangement must do; TLC checks FlatWalk = Walk on every behaviour of   *)
+(* the nested model-checking families and on every recorded history.       *)
+(* ---------------------------------------------------------------------- *)
+Front(s) == SubSeq(s, 1, Len(s) - 1)
+
+\* descend from node n (entered inside the flows stk) to the first leaf
+RECURSIVE Enter(_, _, _)
+Enter(cfg, stk, n) ==
+  IF NodeOf(cfg, n).kind # "flow" THEN [ok |-> TRUE, stk |-> stk, leaf |-> n]
+  ELSE IF NodeOf(cfg, n).start = NIL THEN [ok |-> FALSE, stk |-> stk, leaf |-> NIL]
+  ELSE Enter(cfg, Append(stk, n), NodeOf(cfg, n).start)
+
+\* node n, run inside the flows stk, has finished with action a: the next flat state, or the end
+RECURSIVE Leave(_, _, _, _, _)
+Leave(cfg, tbl, stk, n, a) ==
+  IF stk = <<>> THEN [end |-> TRUE, ok |-> TRUE, act |-> a, stk |-> <<>>, leaf |-> NIL]
+  ELSE LET f == Last(stk) IN
+       IF HasEntry(tbl, f, n, a) /\ Target(tbl, f, n, a) # NIL
+       THEN LET e == Enter(cfg, stk, Target(tbl, f, n, a))
+            IN [end |-> ~e.ok, ok |-> e.ok, act |-> NIL, stk |-> e.stk, leaf |-> e.leaf]
+       ELSE Leave(cfg, tbl, Front(stk), f, a)      \* flow f ends and presents its last action
+
+RECURSIVE FlatSteps(_, _, _, _, _, _)
+FlatSteps(cfg, tbl, stk, leaf, acts, seen) ==
+  IF acts = <<>> THEN [visits |-> Append(seen, leaf), rest |-> <<>>, act |-> NIL, cut |-> TRUE, nostart |-> FALSE]
+  ELSE LET nx == Leave(cfg, tbl, stk, leaf, Head(acts)) IN
+       IF nx.end
+       THEN IF nx.ok THEN [visits |-> Append(seen, leaf), rest |-> Tail(acts), act |-> nx.act, cut |-> FALSE, nostart |-> FALSE]
+                     ELSE [visits |-> Append(seen, leaf), rest |-> Tail(acts), act |-> NIL, cut |-> TRUE, nostart |-> TRUE]
+       ELSE FlatSteps(cfg, tbl, nx.stk, nx.leaf, Tail(acts), Append(seen, leaf))
+
+FlatWalk(cfg, tbl, top, acts) ==
+  LET e == Enter(cfg, <<>>, top) IN
+  IF ~e.ok THEN [visits |-> <<>>, rest |-> acts, act |-> NIL, cut |-> TRUE, nostart |-> TRUE]
+  ELSE FlatSteps(cfg, tbl, e.stk, e.leaf, acts, <<>>)
+
+\* the hierarchical interpreter and the flattened machine agree on this run's recorded actions
+FlatAgrees(cfg, s) ==
+  \E x \in {Walk(cfg, s.conns, s.call.node, ReturnedActs(s))} : \E y \in {FlatWalk(cfg, s.conns, s.call.node, ReturnedActs(s))} :
+     x.visits = y.visits /\ x.rest = y.rest /\ x.cut = y.cut /\ x.nostart = y.nostart /\ (~x.cut => x.act = y.act)
+
+(* ---------------------------------------------------------------------- *)
 (* C01  node lifecycle                                                     *)
 (* ---------------------------------------------------------------------- *)
 C01_Clauses(cfg, S) ==
@@ -353,6 +399,8 @@ C10_Clauses(cfg, S) ==
   IN [
    \* inner flows run their own path to completion and present their last action
    hpath     |-> \A j \in 1..Len(S) : PathHolds(cfg, S[j]),
+   \* ... which is what the equivalent flattened state machine does
+   flattened |-> \A j \in 1..Len(S) : FlatAgrees(cfg, S[j]),
    \* every leaf, at any depth, works on the store given to the top-level run
    sameStore |-> \A j \in 1..Len(S) : \A i \in 1..Len(S[j].cbs) :
                      S[j].cbs[i].ev \in {"prep", "post"} => S[j].cbs[i].sok
